@@ -35,6 +35,12 @@ CHECKS = {
    design="5 (C04), 4.8",
    note="effects are observed as the ordered log of host.eff calls (identifier callee and module-field callee); the model decides which differences are explained by dropping which bindings",
    technique="TLC enumeration + OptModel (Lang.tla), differential replay optimize on/off against the model"),
+ "C12": dict(
+   level="model_checking",
+   text="The Lang.tla corpus is compiled to bytecode (serde_json), loaded back in the same VM and in another / fresh VM and run; outcome and effect log must equal the direct run. Fault enumeration on the serialised modules: truncation at structural boundaries, deleted keys and renamed string references must be refused with an error, never a crash or hang.",
+   design="5 (C12)",
+   note="serde_json is the format exercised; the dependencies of a module (imports) are loaded into the fresh VM before its bytecode; a damaged module that still loads is not judged",
+   technique="TLC-generated corpus (Lang.tla) + differential replay source vs bytecode + fault enumeration on the serialised form"),
 }
 NOT_BUILT = "check not built yet (work in progress; see DESIGN.md section 5)"
 NA = {}
